@@ -133,6 +133,13 @@ CHECKS = {
             "not judged. Held on the calls observed.",
             "Trusted: mf/dictmodel.py as a restatement of the documented laws; deep copies taken by the snapshot.",
             "DESIGN.md 2 C18"),
+    "C19": ("finite exhaustive enumeration of the vocabulary under the parse (expect), print (independent reader) and validate oracles, "
+            "plus grammar block-type list read at run time, observed storage key/shape vs parent schema and auto-creating dict, the "
+            "printer's 'key not found' log record, defaults vs their own property schema and create() cycles",
+            "Every grammar block type at the root, every (parent, child) pair, every (object, keyword, alternative) x position x "
+            "context (root and nested in every parent chain from MAP), every default x version. Exhaustive over that finite product.",
+            "Trusted: lexeme rules of mf/gen.py ('written the way MapServer writes it'); vocab/expect/printcheck/schemamodel.",
+            "DESIGN.md 2 C19"),
     "C20": ("relations over API boundary events and real subprocess observations of the CLI (exit status, stdout lines, output "
             "file bytes) compared with what the public API says for the same files",
             "Unicode-plane string values cycled through open/load/loads and save/dump/dumps; `mappyfile format` with every option, "
